@@ -57,6 +57,7 @@ def cases(draw, tier):
     c["layout"] = draw(st.sampled_from(["contiguous", "contiguous", "transposed_view"]))   # explicit operands as a non-contiguous view
     c["basis2"] = draw(gen.basis_string(n, alphabet))                                    # the same operand tensor is rotated again
     c["zfirst"] = draw(st.booleans())
+    c["prelude"] = draw(st.integers(0, 2)) == 0
     if mode != "positive" and draw(st.integers(0, 3)) == 0:
         # the state carries ANOTHER dictionary of its own (other conventions for some of the same letters); the explicit unitaries=
         # argument must take precedence over it for every letter
@@ -163,6 +164,33 @@ def check_reuse(c):
     require(torch.equal(t, keep), "explicit-operand-mutated", "a rotation modified the caller's explicit psi/rho tensor")
 
 
+def prelude(c, st_, ukw, kw, dens):
+    """history on the state object BEFORE the measured rotations.  After an exception: rotations with an explicit unitaries= dictionary that
+    defines X and Y the other way round and lacks a letter of the basis (KeyError), or with too-narrow outcomes, caught as a caller would.
+    Long time axis: up to 40 different basis strings rotated on this one object.  Nothing of this may influence the rotations that follow."""
+    if not c.get("prelude"):
+        return
+    import itertools
+    from qucumber.utils import unitaries as UN
+    n = c["n"]
+    f = UN.rotate_rho_probs if dens else UN.rotate_psi_inner_prod
+    full = UN.rotate_rho if dens else UN.rotate_psi
+    d0 = gen.lib_unitary_dict({})
+    other = {"X": d0["Y"].clone(), "Y": d0["X"].clone(), "Z": d0["Z"].clone()}
+    two = R.rows_from_indices([0, 2 ** n - 1], n)
+    for bad in (lambda: f(st_, "Q" + "X" * (n - 1), two.clone(), unitaries=other, **kw), lambda: f(st_, "X" * (n - 1) + "Q", two.clone(), unitaries=other, **kw),
+                lambda: f(st_, "X" * n, two[:, : n - 1].clone(), unitaries=other, **kw), lambda: full(st_, "Y" * (n - 1) + "Q", st_.generate_hilbert_space(), unitaries=other, **kw),
+                lambda: f(st_, "X" * (n + 1), two.clone(), unitaries=other, **kw)):
+        try:
+            bad()
+        except Exception:
+            pass
+    alphabet = sorted(set("XYZ") | set((c.get("unitaries") or {}).keys()))
+    seq = [c["basis"]] + [b for b in ("".join(x) for x in itertools.product(alphabet, repeat=n)) if b != c["basis"]][:40]     # the measured basis first: it is the oldest one afterwards
+    for b in seq:
+        f(st_, b, two.clone(), **ukw, **kw)
+
+
 def check_one(c):
     from qucumber.nn_states import ComplexWaveFunction, DensityMatrix, PositiveWaveFunction
     from qucumber.utils import unitaries as UN
@@ -198,6 +226,7 @@ def check_one(c):
             tol = 1e-7 * float(psi.abs().max())
         ukw = {"unitaries": udict_lib} if (mode == "positive" or c.get("extras") or own) else {}      # explicit unitaries= (required for positive states) or the state's own dictionary
         space = st_.generate_hilbert_space()
+        prelude(c, st_, ukw, kw, False)
         ref = U @ psi
         got = R.lib_to_c(UN.rotate_psi(st_, basis, space, **ukw, **kw))
         require(got.shape == (D,), "rotate_psi:shape", f"rotate_psi shape {tuple(got.shape)}")
@@ -245,6 +274,7 @@ def check_one(c):
             kw = {}
             tol = 1e-6 * float(rho.abs().max())
         space = st_.generate_hilbert_space()
+        prelude(c, st_, ukw, kw, True)
         ref = U @ rho @ U.conj().t()
         got = R.lib_to_c(UN.rotate_rho(st_, basis, space, **ukw, **kw))
         require(got.shape == (D, D), "rotate_rho:shape", f"rotate_rho shape {tuple(got.shape)}")
